@@ -722,6 +722,18 @@ func c14CrossState(c *an.Check, g *c14Graph) {
 				c.OK("C14.R3", fd.Key, pos, fmt.Sprintf("persisted as %q; carried into %s", fd.JSONName, strings.Join(names, ", ")))
 				continue
 			}
+			if mirror, okM := g.mirrorOf(fd); okM {
+				// not stored itself, but rebuilt on the recovery path from a persisted
+				// field of the same record: every other writer must keep that mirror in step
+				bad := g.unsyncedWriters(fd, mirror)
+				if len(bad) == 0 {
+					nCrossPersisted++
+					c.OK("C14.R3", fd.Key, pos, "not stored, but rebuilt on recovery from the persisted "+mirror+", which every writer keeps in step")
+				} else {
+					c.Bad("C14.R3", fd.Key+" mirror "+mirror, pos, fd.Key+" is rebuilt on recovery from "+mirror+", but these writers set it without (a path to) writing the mirror, so the value is lost by a restart: "+strings.Join(bad, "; "))
+				}
+				continue
+			}
 			why := "unexported"
 			if fd.Dash {
 				why = "tagged json:\"-\""
@@ -1115,6 +1127,115 @@ func c14SameValue(a, b ssa.Value) bool {
 	if sa, ok := an.ConstString(a); ok {
 		if sb, ok := an.ConstString(b); ok {
 			return sa == sb
+		}
+	}
+	return false
+}
+
+// mirrorOf: fd is not persisted but the recovery closure assigns it from a
+// value derived from a persisted field of the same struct; returns that field's key.
+func (g *c14Graph) mirrorOf(fd *c14Field) (string, bool) {
+	for _, st := range g.w.FieldWriters(fd.Key) {
+		if !g.rebuilt[st.Parent()] || !c14IsFieldOf(st, fd.Owner) {
+			continue
+		}
+		src := g.w.Sources(st.Val, an.FlowOpts{ThroughCalls: map[string]bool{"func:errors.New": true, "func:fmt.Errorf": true}})
+		for _, l := range src.Leaves {
+			if l.Kind != "field" {
+				continue
+			}
+			name := l.Name
+			if i := strings.LastIndex(name, ">"); i >= 0 {
+				name = name[i+1:]
+			}
+			if m := g.ByKey[name]; m != nil && m.Persisted && m.Owner == fd.Owner && m != fd {
+				return name, true
+			}
+		}
+	}
+	return "", false
+}
+
+// unsyncedWriters lists production stores to fd (outside the recovery closure)
+// after which some path reaches a return without a store to the mirror, directly
+// or inside a callee.
+func (g *c14Graph) unsyncedWriters(fd *c14Field, mirror string) []string {
+	w := g.w
+	storesMirror := map[*ssa.Function]bool{}
+	for _, st := range w.FieldWriters(mirror) {
+		storesMirror[st.Parent()] = true
+	}
+	var bad []string
+	for _, st := range w.FieldWriters(fd.Key) {
+		fn := st.Parent()
+		if an.IsTestSupport(w.FnRel(fn)) || g.rebuilt[fn] || !c14IsFieldOf(st, fd.Owner) {
+			continue
+		}
+		var via []ssa.Instruction
+		for _, b := range fn.Blocks {
+			for _, in := range b.Instrs {
+				switch y := in.(type) {
+				case *ssa.Store:
+					if fa, ok := y.Addr.(*ssa.FieldAddr); ok && an.FieldName(fa.X.Type(), fa.Field) == mirror {
+						via = append(via, y)
+					}
+				case ssa.CallInstruction:
+					if cal := y.Common().StaticCallee(); cal != nil && storesMirror[cal] {
+						via = append(via, y)
+					}
+				}
+			}
+		}
+		// a path on which the stored value is known to be nil has nothing to mirror
+		cut := map[an.Edge]bool{}
+		for _, f := range w.Facts(fn) {
+			if f.NonNum && f.Rel == "==" && ((f.LV == st.Val && an.IsNilConst(f.RV)) || (f.RV == st.Val && an.IsNilConst(f.LV))) {
+				cut[f.Edge] = true
+			}
+		}
+		ok := !c14ReachesReturnAvoiding(st, via, cut)
+		if !ok {
+			bad = append(bad, w.FuncName(fn)+" at "+w.Pos(st.Pos()))
+		}
+	}
+	sort.Strings(bad)
+	return bad
+}
+
+// c14ReachesReturnAvoiding: some path from just after `from` reaches a return
+// without executing an instruction of via and without taking a cut edge.
+func c14ReachesReturnAvoiding(from ssa.Instruction, via []ssa.Instruction, cut map[an.Edge]bool) bool {
+	fb, fi := from.Block(), an.InstrIndex(from)
+	stop := map[*ssa.BasicBlock]bool{}
+	for _, v := range via {
+		if v.Block() == fb {
+			if an.InstrIndex(v) > fi {
+				return false
+			}
+			continue
+		}
+		stop[v.Block()] = true
+	}
+	isRet := func(b *ssa.BasicBlock) bool {
+		if len(b.Instrs) == 0 {
+			return false
+		}
+		_, ok := b.Instrs[len(b.Instrs)-1].(*ssa.Return)
+		return ok
+	}
+	if isRet(fb) {
+		return true
+	}
+	var start []*ssa.BasicBlock
+	for i, sb := range fb.Succs {
+		if !cut[an.Edge{From: fb, Idx: i}] {
+			start = append(start, sb)
+		}
+	}
+	reach := an.ReachBlocks(start, cut, stop)
+	for b := range reach {
+		if !stop[b] && isRet(b) {
+			return true
 		}
 	}
 	return false
